@@ -235,6 +235,62 @@ def ob_reducer_feeds_policy(nw: int, b1: bool, q: int, wid: int, a: int, t0: int
     return e.attempts == a + 1 and e.elapsed_seconds == dt and e.exception is exc and e.step_name == "a" and fail_cmd[0].exception is exc
 
 
+@obligation(quick=90, thorough=240, partitions_quick=[f"tail == {t}" for t in range(3)],
+            what="a RETRY attempt (attempts = a, clock started at t0, last exception recorded) of a collecting step whose buffer snapshot is stale: the "
+                 "reducer re-runs it in place - the re-run is the SAME attempt: the slot keeps attempts, first_attempt_at, last_exception, "
+                 "last_failed_at and recovery counts (a re-run is not a fresh budget); and when the same tick also carries a failure, the policy is "
+                 "asked with a + 1 and the elapsed time since t0",
+            bounds={"a": "0..AMAX", "first_attempt_at": "1..2", "num_workers": "1..2", "buffer live/snapshot": "0..2", "what follows the collect": "nothing / result None / failure"})
+def ob_stale_collect_rerun_keeps_attempt(nw: int, b1: bool, wid: int, a: int, t0: int, live: int, snap: int, tail: int, rc: int, pol: int) -> bool:
+    """
+    pre: 1 <= nw <= 2 and world_ab_valid(nw, True, b1, False, 0)
+    pre: 0 <= wid <= 1 and (wid == 0 or b1)
+    pre: 0 <= a <= AMAX and 1 <= t0 <= 2 and 0 <= snap <= live <= 2 and 0 <= tail <= 2 and 0 <= rc <= 1 and 1 <= pol <= 2
+    post: _
+    """
+    from workflows.runtime.types.results import AddCollectedEvent, StepWorkerResult
+    from vlib.world import EVB
+
+    t0 = H.fork_int(t0, 1, 2)
+    policy = StubPolicy(pol, delay=3)
+    st = world_ab(nw, True, b1, False, 0, att=a, policy=policy, t0=t0, buf_live=live, buf_snap=snap, rc={"h": rc})
+    exc0 = KeyError("earlier")
+    for ip in st.workers["a"].in_progress:
+        ip.last_exception = exc0
+        ip.last_failed_at = 0.5
+    res = [AddCollectedEvent(event_id="buf", event=EVA)]
+    exc = ValueError("boom")
+    if tail == 1:
+        res.append(StepWorkerResult(result=None))
+    elif tail == 2:
+        res.append(StepWorkerFailed.model_construct(exception=exc, failed_at=t0 + 1))
+    tick = TickStepResult.model_construct(step_name="a", worker_id=wid, event=EVA, result=res)
+    st2, cmds = _reduce_tick(tick, st, t0 + 1, "r")
+    mine = [x for x in st2.workers["a"].in_progress if x.worker_id == wid]
+    reruns = [c for c in cmds if isinstance(c, CommandRunWorker) and c.step_name == "a" and c.id == wid]
+    if live > snap and tail != 2:
+        # stale: re-run in place, same attempt
+        if len(mine) != 1 or len(reruns) != 1:
+            return False
+        m = mine[0]
+        return (m.attempts == a and m.first_attempt_at == t0 and m.last_exception is exc0 and m.last_failed_at == 0.5
+                and m.recovery_counts == {"h": rc} and m.event is EVA)
+    if tail == 2:
+        if len(policy.calls) != 1:
+            return False
+        c_el, c_att, c_err = policy.calls[0]
+        if not (c_el == 1 and c_att == a + 1 and c_err is exc):
+            return False
+        retry_cmds = [c for c in cmds if isinstance(c, CommandQueueEvent) and c.event is EVA and c.attempts is not None]
+        if live > snap:
+            # stale collect AND failure in one tick: either shape is acceptable as long as the attempt is not reset
+            for m in mine:
+                if not (m.attempts == a and m.first_attempt_at == t0):
+                    return False
+        return all(r.attempts == a + 1 and r.first_attempt_at == t0 for r in retry_cmds)
+    return True
+
+
 class _SeedPolicy:
     """a policy of the current protocol: next(elapsed_time, attempts, error, *, seed=None)"""
 
